@@ -19,9 +19,23 @@ A case is a JSON-able dict:
             `raise ... from cause`, own __reduce__); an exception the caller receives is canonicalised by a complete
             observation (type, args, str(), attributes, notes, cause) - see `observe` / `canon`
   ops       [["call", arg_index, form_index], ["adv", ticks], ...]
+            arg_index indexes ARGS: bound (a, b) tuples, some of which are EQUAL BUT DIFFERENT arguments (1 / True / 1.0,
+            0 / False / 0.0, 2 / 2.0): "the same bound arguments" is the rendered key of C08 (1 -> '1', True -> 'true',
+            1.0 -> '1.0'), never python's ==
+            iterator calls may carry a 4th element, what the consumer does with the stream:
+              ["take", n, how]  receives n >= 1 elements and stops: how 0 = break + aclose(), 1 = break and drop the
+                                stream (finalised by the event loop), 2 = the consumer's task is cancelled between two
+                                items (in its own body; the stream is dropped with the task's frame)
+              ["cancel", n]     the consumer's task is cancelled while the wrapped generator works on its step n, i.e.
+                                after n items (step = len(steps) is the final stretch); a replay has no such point:
+                                on a hit this consumer drains
+            absent = `async for` to the end.  A real run is thus completed / raised / abandoned / cancelled ("ended" in
+            the execution log); only a run that ended by itself may ever be replayed.
 """
 from __future__ import annotations
 
+import asyncio
+import gc
 import inspect
 import os
 from datetime import timedelta
@@ -179,7 +193,39 @@ def describe_exc(exc: BaseException) -> str:
         text += "+cause:" + type(cause).__qualname__
     return "X:" + text.replace(",", ";").replace(" ", "_")[:120]
 FALSY = [0, "", [], False]
-ARGS = [(1, 0), (2, 0), (1, 5), (2, 5)]          # bound (a, b); index = key id of the model
+# bound (a, b); index = key id of the model.  0-3: one type only; from 4 on: values that are == to an earlier one but are
+# different arguments (another type): "same bound arguments" is decided by type and value - as C08's key rendering does
+# (1 -> '1', True -> 'true', 1.0 -> '1.0') -, never by ==/hash.
+ARGS = [(1, 0), (2, 0), (1, 5), (2, 5),
+        (True, 0), (1.0, 0), (1, False), (1, 0.0), (2.0, 0), (0, 0), (False, 0), (0.0, 0), (True, False), (2, 5.0)]
+
+
+def render_arg(v) -> str:
+    """how C08's key formatter renders an argument value (the part of it used here): bool lower-cased, else str()"""
+    return str(v).lower() if isinstance(v, bool) else str(v)
+
+
+if len({(render_arg(a), render_arg(b)) for a, b in ARGS}) != len(ARGS):      # the alphabet must be distinct as keys
+    raise HarnessError("ARGS: two argument tuples render to the same key")
+
+
+def arg_index(a, b) -> int:
+    """key id of the bound arguments (a, b): identity by type and value"""
+    for i, (x, y) in enumerate(ARGS):
+        if type(x) is type(a) and type(y) is type(b) and x == a and y == b:
+            return i
+    raise HarnessError(f"arguments {(a, b)!r} are not in the alphabet")
+
+
+def _eq_classes():
+    out = {}
+    for i, t in enumerate(ARGS):
+        out.setdefault(t, []).append(i)          # dict lookup by ==/hash: exactly the confusion to be exercised
+    return [ids for ids in out.values() if len(ids) > 1]
+
+
+EQ_CLASSES = _eq_classes()       # key ids whose argument tuples compare equal: [[0,4,5,6,7,12], [1,8], [3,13], [9,10,11]]
+EQ_CLASS_OF = {i: ids for ids in EQ_CLASSES for i in ids}
 UNIT_SECS = {"d": 86400, "h": 3600, "m": 60, "s": 1}   # the property's meaning of the units (not read from the code)
 
 
@@ -424,7 +470,7 @@ def forms(sig: str, a: int, b: int):
     out = [((a,), {"b": b}), ((), {"a": a, "b": b}), ((), {"b": b, "a": a})]
     if sig == "ab":
         out.insert(0, ((a, b), {}))
-    if b == 0:
+    if type(b) is int and b == 0:       # only the default itself may be left out (False and 0.0 are other arguments)
         out += [((a,), {}), ((), {"a": a})]
     return out
 
@@ -436,7 +482,7 @@ def key_of_factory(sig: str):
         kwargs = {k: v for k, v in kwargs.items() if k != "result"}
         ba = signature.bind(*args, **kwargs)
         ba.apply_defaults()
-        return ARGS.index((ba.arguments["a"], ba.arguments["b"]))
+        return arg_index(ba.arguments["a"], ba.arguments["b"])
     return key_of
 
 
@@ -521,7 +567,7 @@ def execute(case: dict):
             async def body(a, b):
                 n = len(log)
                 k, dur = parse_beh(script[n]) if n < len(script) else ("v", 0)
-                entry = {"n": n, "key": ARGS.index((a, b)), "kind": "f" if k.startswith("f") else k, "dur": dur}
+                entry = {"n": n, "key": arg_index(a, b), "kind": "f" if k.startswith("f") else k, "dur": dur}
                 log.append(entry)
                 await _pass_time(dur)
                 entry["t"] = CLOCK.ticks()
@@ -557,30 +603,46 @@ def execute(case: dict):
             async def gen_body(a, b):
                 n = len(log)
                 steps, findur = parse_run(script[n]) if n < len(script) else ([], 0)
-                entry = {"n": n, "key": ARGS.index((a, b)), "start": CLOCK.ticks(), "outs": [], "kinds": [],
-                         "complete": False}
+                entry = {"n": n, "key": arg_index(a, b), "start": CLOCK.ticks(), "outs": [], "kinds": [],
+                         "complete": False, "ended": None}
                 log.append(entry)
-                for i, (k, delay) in enumerate(steps):
-                    await _pass_time(delay)
-                    if k.startswith("e"):
-                        entry["outs"].append(f"x{k[1:]}.{n}")
-                        entry["kinds"].append(k)
-                        entry["complete"] = True
-                        entry["end"] = CLOCK.ticks()
-                        raise_exc(*exc_of_kind(k), n)
-                    entry["kinds"].append("f" if k.startswith("f") else k)
-                    if k == "v":
-                        entry["outs"].append(f"v{n}.{i}")
-                        yield f"v{n}.{i}"
-                    elif k == "n":
-                        entry["outs"].append("n")
-                        yield None
-                    else:
-                        entry["outs"].append(k)
-                        yield FALSY[int(k[1:])]
-                await _pass_time(findur)
-                entry["complete"] = True
-                entry["end"] = CLOCK.ticks()
+                block = ctl["cancel_at"]             # the step during which this call's consumer will be cancelled
+                try:
+                    for i, (k, delay) in enumerate(steps):
+                        if block == i:
+                            ctl["reached"].set()
+                            await asyncio.Event().wait()         # works "forever": only a cancellation ends it
+                        await _pass_time(delay)
+                        if k.startswith("e"):
+                            entry["outs"].append(f"x{k[1:]}.{n}")
+                            entry["kinds"].append(k)
+                            entry["complete"] = True
+                            entry["ended"] = "raised"
+                            entry["end"] = CLOCK.ticks()
+                            raise_exc(*exc_of_kind(k), n)
+                        entry["kinds"].append("f" if k.startswith("f") else k)
+                        if k == "v":
+                            entry["outs"].append(f"v{n}.{i}")
+                            yield f"v{n}.{i}"
+                        elif k == "n":
+                            entry["outs"].append("n")
+                            yield None
+                        else:
+                            entry["outs"].append(k)
+                            yield FALSY[int(k[1:])]
+                    if block == len(steps):
+                        ctl["reached"].set()
+                        await asyncio.Event().wait()
+                    await _pass_time(findur)
+                    entry["complete"] = True
+                    entry["ended"] = "completed"
+                    entry["end"] = CLOCK.ticks()
+                except GeneratorExit:
+                    entry["ended"] = "abandoned"
+                    raise
+                except asyncio.CancelledError:
+                    entry["ended"] = "cancelled"
+                    raise
 
             deco = cache.iterator(ttl=ttl, key=case.get("keytpl"), condition=condition)
             if sig == "ab":
@@ -593,6 +655,100 @@ def execute(case: dict):
                 async def f(a, *, b=0):
                     async for x in gen_body(a, b):
                         yield x
+
+        ctl = {"cancel_at": None, "reached": None}
+
+        def note(x):
+            return ("yielded:" if isinstance(x, BaseException) else "") + canon(x)
+
+        async def settle():
+            """let the event loop finalise every stream that was dropped (the asyncgen hooks close them in tasks of
+            their own, one nesting level per loop iteration) - nothing of a call may be left pending when the next begins"""
+            for attempt in range(40):
+                await asyncio.sleep(0)
+                if all(x["ended"] is not None for x in log) and attempt >= 4:
+                    return
+                if attempt == 20:
+                    gc.collect()
+            raise HarnessError("a dropped stream was not finalised by the event loop")
+
+        async def consume(f, args, kwargs, mode):
+            """what the consumer of one call receives (canonical forms), for each way of reading the stream"""
+            items = []
+            ctl["cancel_at"], ctl["reached"] = None, asyncio.Event()
+            if mode is None:
+                try:
+                    async for x in f(*args, **kwargs):
+                        items.append(note(x))
+                except Exception as exc:  # noqa: BLE001
+                    items.append(canon(exc))
+                return items
+            if mode[0] == "take" and mode[2] in (0, 1):
+                limit = mode[1]
+                if limit < 1:
+                    raise HarnessError("a consumer takes at least one element")
+                gen = f(*args, **kwargs)
+                try:
+                    async for x in gen:
+                        items.append(note(x))
+                        if len(items) >= limit:
+                            break
+                except Exception as exc:  # noqa: BLE001
+                    items.append(canon(exc))
+                if mode[2] == 0:
+                    await gen.aclose()
+                del gen
+                await settle()
+                return items
+            if mode[0] == "take" and mode[2] == 2:
+                limit = mode[1]
+                if limit < 1:
+                    raise HarnessError("a consumer takes at least one element")
+                between = asyncio.Event()
+
+                async def consumer():
+                    try:
+                        async for x in f(*args, **kwargs):
+                            items.append(note(x))
+                            if len(items) >= limit:
+                                between.set()
+                                await asyncio.Event().wait()          # the consumer is busy with the item it received
+                    except Exception as exc:  # noqa: BLE001
+                        items.append(canon(exc))
+                await run_and_cancel(consumer(), between)
+                await settle()
+                return items
+            if mode[0] == "cancel":
+                ctl["cancel_at"] = mode[1]
+
+                async def consumer():
+                    try:
+                        async for x in f(*args, **kwargs):
+                            items.append(note(x))
+                    except Exception as exc:  # noqa: BLE001
+                        items.append(canon(exc))
+                await run_and_cancel(consumer(), ctl["reached"])
+                ctl["cancel_at"] = None
+                await settle()
+                return items
+            raise HarnessError(f"bad consumer {mode}")
+
+        async def run_and_cancel(coro, event):
+            """run the consumer as a task; cancel it as soon as `event` is set (if it ever is)"""
+            task = asyncio.ensure_future(coro)
+            waiter = asyncio.ensure_future(event.wait())
+            await asyncio.wait({task, waiter}, return_when=asyncio.FIRST_COMPLETED)
+            if not task.done():
+                task.cancel()
+            try:
+                await task
+            except asyncio.CancelledError:
+                pass
+            waiter.cancel()
+            try:
+                await waiter
+            except asyncio.CancelledError:
+                pass
 
         trace = []
         for op in case["ops"]:
@@ -616,14 +772,13 @@ def execute(case: dict):
                 trace.append({"line": f"call {op[1]}", "impl": f"{got} {'run' if len(log) > before else 'hit'}",
                               "now": now, "key": op[1], "execs": len(log) - before})
             else:
-                items = []
-                try:
-                    async for x in f(*args, **kwargs):
-                        items.append(("yielded:" if isinstance(x, BaseException) else "") + canon(x))
-                except Exception as exc:  # noqa: BLE001
-                    items.append(canon(exc))
-                trace.append({"line": f"it {op[1]}", "impl": f"{','.join(items) or '-'} {'run' if len(log) > before else 'hit'}",
-                              "now": now, "key": op[1], "execs": len(log) - before})
+                mode = op[3] if len(op) > 3 and op[3] else None
+                items = await consume(f, args, kwargs, mode)
+                rec = {"line": f"it {op[1]}" + consumer_code(mode), "impl": f"{','.join(items) or '-'} {'run' if len(log) > before else 'hit'}",
+                       "now": now, "key": op[1], "execs": len(log) - before, "mode": mode}
+                if len(log) > before:
+                    rec["ended"] = log[before]["ended"]
+                trace.append(rec)
         await cache.close()
         return trace
 
@@ -639,8 +794,16 @@ def model_lines(case: dict, trace=None) -> list[str]:
         if op[0] == "adv":
             ops.append(f"adv {op[1]}")
         else:
-            ops.append(f"{'call' if case['kind'] == 'simple' else 'it'} {op[1]}")
+            ops.append(f"{'call' if case['kind'] == 'simple' else 'it'} {op[1]}" +
+                       (consumer_code(op[3]) if len(op) > 3 and case["kind"] != "simple" else ""))
     return [head, script.rstrip()] + ops
+
+
+def consumer_code(mode) -> str:
+    """driver notation of a consumer: '' (drains) | ' t<n>' | ' c<n>'"""
+    if not mode:
+        return ""
+    return f" t{mode[1]}" if mode[0] == "take" else f" c{mode[1]}"
 
 
 # ----------------------------------------------------------------------------------------------
@@ -687,6 +850,11 @@ def oracle(case: dict, trace, log):
                                 why = f"execution {x['n']} produced it but the condition rejected it"
                             else:
                                 why = f"execution {x['n']} produced it {now - x['t']} ticks ago, ttl is {tt} ticks"
+                    if why.startswith("no execution"):
+                        for x in prior:
+                            if x["key"] != k and x["key"] in EQ_CLASS_OF.get(k, ()) and x.get("res") == got:
+                                why = (f"execution {x['n']} produced it for the OTHER arguments {ARGS[x['key']]!r}, which compare equal to "
+                                       f"but are not the arguments {ARGS[k]!r} of this call")
                     failures = [x for x in stored if x["kind"].startswith("e")]
                     if why.startswith("no execution") and failures:
                         y = failures[-1]
@@ -705,17 +873,27 @@ def oracle(case: dict, trace, log):
         items = [] if got == "-" else got.split(",")
         if t["execs"] > 1:
             return i, f"one call ran the generator {t['execs']} times"
+        mode = t.get("mode")
+        limit = mode[1] if mode and mode[0] == "take" else None
         if how == "run":
             x = log[seen]
             seen += 1
             if items != x["outs"] or x["key"] != k:
                 return i, f"consumer received {items} but the run produced {x['outs']}"
+            if mode is None and not x["complete"]:
+                return i, f"the consumer drained the stream but the run was {x['ended']}"
         else:
             tt = ttl_ticks_spec(ttl, k, "n")
             ok = False
             why = "no run with this key produced exactly this sequence"
+
+            def shows(x):
+                """is what the consumer received what a replay of run x looks like to this consumer"""
+                if limit is None or len(items) < limit:
+                    return x["outs"] == items          # the replay ended by itself: it has to be the whole run
+                return x["outs"][:limit] == items      # the consumer stopped after `limit` elements
             for x in log[:seen]:
-                if x["key"] == k and x["outs"] == items and x["complete"]:
+                if x["key"] == k and x["complete"] and shows(x):
                     if not items:
                         why = "an empty replay is not a run"
                         continue
@@ -733,6 +911,17 @@ def oracle(case: dict, trace, log):
                             and x["outs"][-1].startswith("x")):
                         why = (f"run {x['n']} delivered the same items and then raised {expected_exc_text(x['outs'][-1])}; "
                                f"the replay ends with {items[-1]}: not the exception that was raised")
+            if not ok and why.startswith("no run"):
+                for x in log[:seen]:
+                    if x["key"] != k and x["key"] in EQ_CLASS_OF.get(k, ()) and x["complete"] and shows(x) and items:
+                        why = (f"run {x['n']} produced it for the OTHER arguments {ARGS[x['key']]!r}, which compare equal to but are not "
+                               f"the arguments {ARGS[k]!r} of this call")
+            if not ok and why.startswith("no run"):
+                for x in log[:seen]:
+                    if x["key"] == k and not x["complete"] and x["outs"][:len(items)] == items:
+                        why = (f"these are the first {len(items)} of the {len(x['outs'])} items that run {x['n']} had delivered when it was "
+                               f"{x['ended']} (its consumer stopped / was cancelled): a run that never ended is not a complete run "
+                               f"and must not be replayed")
             if not ok:
                 return i, f"replayed {items or '[]'} from the cache: {why}"
     return None
